@@ -8,6 +8,8 @@ Lock operands are *roles*, not expressions.
 * `Sem`  : the paths of a statement — a relation `flags → trace of events → exit kind → flags`, with an
            exception possible at every `call`, definite at every `raise`; `ite any` may take either branch,
            a `loop` iterates as long as its body ends with `cont`; `opaque` has *every* path.
+           `tryExcept` (a handler for *some* exception type) keeps the uncaught exceptional paths of its body,
+           `tryCatch` (`except Exception`) does not.
 * `outs` : one generic, executable abstract interpreter.  It runs a *monitor automaton* (`A`, `step`) over all
            paths and returns the finite set of reachable (exit, monitor state, flags); loops are summarised
            by a checked inductive set of loop-head states.  `outs … = none` on `opaque` and on a loop whose
@@ -99,7 +101,8 @@ inductive Stmt where
   | loop (body : Stmt)                -- repeat `body` while it ends with `cont`
   | scope (body : Stmt)               -- an inlined helper: `ret` inside ends the helper only
   | tryFinally (body fin : Stmt)
-  | tryExcept (body handler : Stmt)
+  | tryExcept (body handler : Stmt)     -- `except <SomeError>`: an exception of the body may also pass uncaught
+  | tryCatch (body handler : Stmt)      -- `except Exception` / bare `except`: every exception of the body is caught
   | opaque (why : String)             -- a construct the translator does not understand
   deriving Repr
 
@@ -194,6 +197,9 @@ def Sem : Stmt → Rel
         e = (if e2 = .norm then e1 else e2)
   | .tryExcept b h => fun φ tr e φ' =>
       Sem b φ tr e φ' ∨
+      (∃ tr1 φ1 tr2, Sem b φ tr1 .exc φ1 ∧ Sem h φ1 tr2 e φ' ∧ tr = tr1 ++ tr2)
+  | .tryCatch b h => fun φ tr e φ' =>
+      (Sem b φ tr e φ' ∧ e ≠ .exc) ∨
       (∃ tr1 φ1 tr2, Sem b φ tr1 .exc φ1 ∧ Sem h φ1 tr2 e φ' ∧ tr = tr1 ++ tr2)
   | .opaque _ => fun _ _ _ _ => True
 
@@ -304,6 +310,10 @@ def outs (M : A → Ev → A) : Stmt → Cfg A → Option (List (Out A))
         (fun _ y => match outs M h y with
           | none => none
           | some K => some ((Exit.exc, y) :: K)) O
+  | .tryCatch b h, x =>
+    match outs M b x with
+    | none => none
+    | some O => thenOn (fun e => e == .exc) (fun _ y => outs M h y) O
   | .opaque _, _ => none
 
 /-- every path of `s` ends in a monitor state satisfying `p` (false when `s` is not analysable) -/
@@ -325,7 +335,7 @@ end Outs
 /-- does the skeleton contain an `opaque`? -/
 def Stmt.hasOpaque : Stmt → Bool
   | .opaque _ => true
-  | .seq a b | .ite _ a b | .tryFinally a b | .tryExcept a b => a.hasOpaque || b.hasOpaque
+  | .seq a b | .ite _ a b | .tryFinally a b | .tryExcept a b | .tryCatch a b => a.hasOpaque || b.hasOpaque
   | .loop b | .scope b => b.hasOpaque
   | _ => false
 
@@ -338,6 +348,7 @@ def noTimeout : Stmt → Stmt
   | .scope b => .scope (noTimeout b)
   | .tryFinally a b => .tryFinally (noTimeout a) (noTimeout b)
   | .tryExcept a b => .tryExcept (noTimeout a) (noTimeout b)
+  | .tryCatch a b => .tryCatch (noTimeout a) (noTimeout b)
   | s => s
 
 /-- drop the calls selected by `p` (assume they neither fail nor matter): used to state what holds when a getter
@@ -350,31 +361,33 @@ def dropCalls (p : String → Bool) : Stmt → Stmt
   | .scope b => .scope (dropCalls p b)
   | .tryFinally a b => .tryFinally (dropCalls p a) (dropCalls p b)
   | .tryExcept a b => .tryExcept (dropCalls p a) (dropCalls p b)
+  | .tryCatch a b => .tryCatch (dropCalls p a) (dropCalls p b)
   | s => s
 
 /-- the time-out branches of the lock races -/
 def timeoutBranches : Stmt → List Stmt
   | .ite .timeout a b => a :: (timeoutBranches a ++ timeoutBranches b)
-  | .ite _ a b | .seq a b | .tryFinally a b | .tryExcept a b => timeoutBranches a ++ timeoutBranches b
+  | .ite _ a b | .seq a b | .tryFinally a b | .tryExcept a b | .tryCatch a b => timeoutBranches a ++ timeoutBranches b
   | .loop b | .scope b => timeoutBranches b
   | _ => []
 
 /-- all (target, method) pairs called (not on a qubit object) and all node locks acquired without time-out -/
 def Stmt.nodeCalls : Stmt → List (Role × String)
   | .call r m false => [(r, m)]
-  | .seq a b | .ite _ a b | .tryFinally a b | .tryExcept a b => a.nodeCalls ++ b.nodeCalls
+  | .seq a b | .ite _ a b | .tryFinally a b | .tryExcept a b | .tryCatch a b => a.nodeCalls ++ b.nodeCalls
   | .loop b | .scope b => b.nodeCalls
   | _ => []
 
 def Stmt.acquiresNoTimeout : Stmt → List Role
   | .acquire l false => [l]
-  | .seq a b | .ite _ a b | .tryFinally a b | .tryExcept a b => a.acquiresNoTimeout ++ b.acquiresNoTimeout
+  | .seq a b | .ite _ a b | .tryFinally a b | .tryExcept a b | .tryCatch a b =>
+    a.acquiresNoTimeout ++ b.acquiresNoTimeout
   | .loop b | .scope b => b.acquiresNoTimeout
   | _ => []
 
 def Stmt.requiresSelf : Stmt → Bool
   | .requires .SELF => true
-  | .seq a b | .ite _ a b | .tryFinally a b | .tryExcept a b => a.requiresSelf || b.requiresSelf
+  | .seq a b | .ite _ a b | .tryFinally a b | .tryExcept a b | .tryCatch a b => a.requiresSelf || b.requiresSelf
   | .loop b | .scope b => b.requiresSelf
   | _ => false
 
